@@ -4,7 +4,7 @@
    Statements only; proofs live in Proofs/PanicSkelProofs.v.  The handlers are the transcriptions in
    Model/PanicSkel.v (outcome = Ok | Err code | Panic); np o means "o is not a Panic". *)
 From Coq Require Import List NArith ZArith Bool.
-From OC Require Import Base.Bytes Model.PanicSkel Proofs.PanicSkelProofs.
+From OC Require Import Base.Bytes Model.PanicSkel Proofs.PanicSkelProofs Proofs.PanicSkelRegexp.
 Import ListNotations.
 
 (* Set: every decodable request, every topology / plugin set / size limit *)
@@ -30,23 +30,18 @@ Proof. exact misc_handlers_total. Qed.
 Print Assumptions C12_total_scalar_handlers.
 
 (* Get: every decodable request against every configuration whose live entries are inside the domain of
-   the tree builder and the value accessors (state_ok: empty configurations, and - monitored on the
-   implementation - whatever accepted Sets store).
-   PARTIAL: the premise regexp_ok (regexp.MustCompile accepts the text MatchWildcardRegexp builds from
-   any query, i.e. that text stays inside the recognised fragment) is proved only in small scope
-   (C12_regexp_small_scope); what is missing is the alignment argument for the two ReplaceAll passes
-   over the QuoteMeta'd text. *)
-Theorem C12_total_get_partial : forall e st r,
-  (forall q, is_panic (must_compile (wildcard_regexp q false)) = false) ->
+   the tree builder and the value accessors (state_ok: holds for empty configurations and is monitored on
+   the implementation's stores after every accepted Set) *)
+Theorem C12_total_get : forall e st r,
   get_wire_ok r = true -> state_ok st = true -> is_panic (get_handler e st r) = false.
-Proof. exact get_handler_total_partial. Qed.
-Print Assumptions C12_total_get_partial.
+Proof. exact get_handler_total. Qed.
+Print Assumptions C12_total_get.
 
-Theorem C12_regexp_small_scope :
-  forallb (fun q => negb (is_panic (must_compile (wildcard_regexp q false))) &&
-                    negb (is_panic (must_compile (wildcard_regexp q true)))) (words regexp_alphabet 5) = true.
-Proof. exact regexp_ok_small_scope. Qed.
-Print Assumptions C12_regexp_small_scope.
+(* regexp.MustCompile accepts the text MatchWildcardRegexp builds from ANY query (exact or prefix form):
+   the emitted text always stays inside the recognised regexp fragment *)
+Theorem C12_regexp_total : forall q exact, is_panic (must_compile (wildcard_regexp q exact)) = false.
+Proof. exact wildcard_regexp_compiles. Qed.
+Print Assumptions C12_regexp_total.
 
 (* LeafSelectionQuery without a change context: full *)
 Theorem C12_total_leafselection_no_context : forall e st r,
